@@ -28,6 +28,8 @@ def run(tier, seed):
     core.run_jobs(jobs)
     for j in jobs:
         res.absorb(j)
+    # E4: coverage-guided campaign with the same oracle inside the target (value profile finds a = N, 2N-1, tie phases)
+    core.run_fuzz(res, "fz_c11", 12 if tier == "quick" else 600, 2 if tier == "quick" else 8, seed, "C11")
     res.rule = ("E1 rapidcheck: op in 24 operations/laws, N=2^e (e in 0..11), a in [0,2N) with {0,N-1,N,2N-1} over-represented, scalar p incl. "
                 "INT32_MIN/MAX, polynomial contents = explicit coefficient vectors (N<=16) or shape descriptors (random, all-MAX, all-MIN, "
                 "alternating, spike, ramp, zero) expanded from a generated seed; oracle = uint64 schoolbook / explicit index reference, exact "
